@@ -34,6 +34,22 @@ CHECKS.append({
             "exactness of small-integer/dyadic doubles, the harness.",
 })
 
+CHECKS.append({
+    "property_id": "C19",
+    "category": "proof",
+    "technique": "Lean 4 proof of nine bookkeeping skeletons (best-so-far rules as folds over arbitrary event streams) + "
+                 "verified checker on recorded traces of the real solvers + per-run skeleton replay",
+    "text": "For anneal, tabu_search, lns, alns, evolve, differential_evolution, particle_swarm, nelder_mead and "
+            "bayesian_opt the Lean skeletons encode each solver's own update rule with RNG, exp and user callbacks "
+            "abstracted to quantified event payloads; *_best_is_min_of_evaluated, *_evals_eq_calls, to_user_sign, "
+            "solvers_mirror_min_max, clip_in_bounds hold for every event stream. On every run the real solvers are "
+            "executed with a recording objective proxy; the verified checker checkResult decides the property's "
+            "clauses on the recorded trace, the skeleton replay must reproduce the returned best, runs are repeated "
+            "(determinism) and mirrored (max f vs min -f). powell/bfgs/lbfgs: reported objective = f(returned point).",
+    "note": "Trusted: Lean kernel + standard axioms; RNG/exp/callbacks abstracted (not modelled); objective values "
+            "integer or dyadic; the model mirrors /repo with the six C19 fix commits; harness recording proxy.",
+})
+
 _PENDING = "check not built yet in this round (planned in DESIGN.md §4); no claim made"
 NOT_APPLICABLE = [
     {"property_id": f"C{i:02d}", "reason": _PENDING}
